@@ -36,24 +36,35 @@ type perioRec struct {
 	mu     sync.Mutex
 	q      []string // queries made (canonical), since last take
 	n      []string // notifications
+	held   []report.SessReport
 	mode   string
 	flags  uint32
 	nquery int
 }
 
+// NotifySessReport keeps the notification as handed over and reads it only when the tick is over — as the
+// PFCP server does, which queues it for the event loop: what a session is told must not depend on what the
+// periodic server does after the hand-over.
 func (p *perioRec) NotifySessReport(sr report.SessReport) {
 	p.mu.Lock()
 	defer p.mu.Unlock()
-	var rs []string
-	for _, r := range sr.Reports {
-		u, ok := r.(report.USAReport)
-		if !ok {
-			rs = append(rs, "?")
-			continue
+	p.held = append(p.held, sr)
+}
+
+func (p *perioRec) render() {
+	for _, sr := range p.held {
+		var rs []string
+		for _, r := range sr.Reports {
+			u, ok := r.(report.USAReport)
+			if !ok {
+				rs = append(rs, "?")
+				continue
+			}
+			rs = append(rs, fmt.Sprintf("%d.%x", u.URRID, u.USARTrigger.Flags))
 		}
-		rs = append(rs, fmt.Sprintf("%d.%x", u.URRID, u.USARTrigger.Flags))
+		p.n = append(p.n, fmt.Sprintf("%x:%s", sr.SEID, strings.Join(rs, "+")))
 	}
-	p.n = append(p.n, fmt.Sprintf("%x:%s", sr.SEID, strings.Join(rs, "+")))
+	p.held = nil
 }
 
 func (p *perioRec) PopBufPkt(uint64, uint16) ([]byte, bool) { return nil, false }
@@ -102,6 +113,7 @@ func (p *perioRec) take() (string, string) {
 	if len(p.q) > 0 {
 		q = strings.Join(p.q, "|")
 	}
+	p.render()
 	if len(p.n) > 0 {
 		sort.Strings(p.n)
 		n = strings.Join(p.n, ",")
